@@ -18,11 +18,9 @@ def skip_region(syn, feats, skipped):
     """Dom_C01: regions of known findings are skipped; their witnesses are replayed separately."""
     fid = None
     if syn in ("uper", "oer") and "SET" in feats: fid = "F32"
-    elif syn == "oer" and "wide_int_fixed_oer" in feats: fid = "F36"
     elif syn == "uper" and "named_plain_numeric" in feats: fid = "F46"
     elif syn == "uper" and "choice_alias" in feats: fid = "F38"
     elif syn == "uper" and "enum_alias" in feats: fid = "F123"
-    elif syn == "xer" and "REAL" in feats: fid = "F40"
     if fid: skipped[fid] += 1
     return fid is not None
 
@@ -55,6 +53,7 @@ def run(ctx):
     notbuilt = []
     skipped = collections.Counter()
     gfind.replay_witnesses(ctx)
+    gfind.replay_fixed_witnesses(ctx)      # former witnesses of repaired findings must not reproduce
     samples = {}
     total = 0
     f30 = 0
